@@ -6,6 +6,10 @@ sys.path.insert(0, os.path.dirname(os.path.abspath(__file__)))
 repo = os.environ.get("VERIF_REPO", "/repo")
 if repo not in sys.path:
     sys.path.insert(1, repo)
+# Python-level thread pools go under the simulator *before* the library binds the names
+from dsim import simexec  # noqa: E402
+
+simexec.install()
 # speckit must be imported before numba so that its threading-layer default applies
 import speckit  # noqa: E402,F401
 
